@@ -270,6 +270,17 @@ def _sweeps(ck):
                       'not_discharged': [dict(site=v['site'], construct=v['construct'][:120]) for v in shadow.violations[v0:]][:20]}
         for v in shadow.violations[v0:][:10]:
             ck.observations.append({'rule': 'sweep.' + label, 'site': v['site'], 'text': v['construct'][:200] + ' :: ' + v['detail'][:200]})
+    try:
+        from .rules import extra
+        und = []
+        for mod in ck.repo.py_modules():
+            for name, ln, qual in extra.undefined_names(mod):
+                und.append({'module': mod.rel, 'function': qual, 'name': name})
+                ck.observations.append({'rule': 'sweep.undefined-global-name', 'site': '%s:%s' % (mod.rel, ln),
+                                        'text': '`%s` is read in %s but bound nowhere in the module (NameError when reached)' % (name, qual)})
+        out['undefined-global-names'] = {'modules': len(ck.repo.py_modules()), 'found': und}
+    except Exception as e:
+        out['undefined-global-names'] = {'error': repr(e)}
     out['incomplete'] = shadow.incomplete[:10]
     return out
 
